@@ -15,12 +15,13 @@ run_one() {
   rm -rf "$tmp"
   local first; first=$(echo "$out" | grep -m1 '^VIOLATION' | sed "s#$tmp#<scratch>#")
   if [ "$expect" = fail ]; then
-    if [ $code -eq 1 ]; then echo "SELFTEST $id $(basename $patch .patch): detected ($(echo "$out" | grep -c '^VIOLATION') violations; $(echo "$first" | sed 's/.*replay=[^ ]*\/\([^/ ]*\)\.json.*/\1/'))"; else echo "SELFTEST $id $(basename $patch .patch): NOT DETECTED (exit $code)"; bad=1; fi
+    if [ $code -eq 1 ]; then echo "SELFTEST $id $(echo $patch | sed 's#selftest/mutants/##; s#\.patch##; s#/patch.diff##'): detected ($(echo "$out" | grep -c '^VIOLATION') violations; $(echo "$first" | sed 's/.*replay=[^ ]*\/\([^/ ]*\)\.json.*/\1/'))"; else echo "SELFTEST $id $(echo $patch | sed 's#selftest/mutants/##; s#\.patch##; s#/patch.diff##'): NOT DETECTED (exit $code)"; bad=1; fi
   else
     if [ $code -eq 0 ]; then echo "SELFTEST $id $(basename $patch .patch): benign edit accepted"; else echo "SELFTEST $id $(basename $patch .patch): FALSE ALARM (exit $code) $first"; bad=1; fi
   fi
 }
 for p in selftest/mutants/$id-*$filter*.patch; do [ -e "$p" ] && run_one "$p" fail; done
+for p in seeded/$id*/patch.diff; do [ -e "$p" ] && [ -z "$filter" -o "$filter" = seeded ] && run_one "$p" fail; done
 for p in selftest/benign/$id-*$filter*.patch; do [ -e "$p" ] && run_one "$p" pass; done
 [ $bad -eq 0 ] || exit 3
 exit 0
